@@ -118,6 +118,16 @@ pub fn into_tokens(c: char, it: &mut Peekable<Chars>, state: &mut State) -> LexR
                         it.next();
                     }
                     'E' if e_num => break,
+                    '-' if e_num && exp.is_empty() => {
+                        // a negative exponent (`1E-3`), only if a digit follows
+                        let mut ahead = it.clone();
+                        ahead.next();
+                        if !matches!(ahead.peek(), Some('0'..='9')) {
+                            break;
+                        }
+                        exp.push(c);
+                        it.next();
+                    }
                     'E' => {
                         e_num = true;
                         it.next();
